@@ -369,8 +369,14 @@ def get_field_types(type_: type[DataclassInstance]) -> dict[Field, Any]:
         if isinstance(f_type, str):
             f_type = get_type_hints(type_).get(field.name)
 
-        if f_type is None:
-            raise RuntimeError(f"Could not determine type of field {field.name} for type {type_}")
+            if f_type is None:
+                raise RuntimeError(
+                    f"Could not determine type of field {field.name} for type {type_}"
+                )
+        elif f_type is None:
+            # A field annotated with `None` (not a string). Same as what
+            # get_type_hints returns for the postponed annotation "None"
+            f_type = type(None)
 
         # Unwrap newtypes to not deal with them later
         if is_new_type(f_type):  # type: ignore[arg-type]
